@@ -347,6 +347,36 @@ def writer_options(item, acc, base):
         acc.violation(sig, desc, case)
 
 
+def nothing_to_read(kind, acc, base):
+    """Files from which no atom is kept: a system without molecules, a system of excluded water only, hydrogens only with ignh.
+    'Any number of molecules' includes none: the reader returns an empty list, it does not fail."""
+    import vermouth
+    import numpy as np
+    from vermouth.pdb.pdb import write_pdb, read_pdb
+    case = {'layer': 'nothing-to-read', 'kind': kind}
+    system = vermouth.System()
+    kwargs = {}
+    if kind != 'no-molecules':
+        mol = vermouth.molecule.Molecule()
+        for idx in range(3):
+            mol.add_node(idx, atomname='OW' if kind == 'water-only' else 'H%d' % idx, resname='SOL' if kind == 'water-only' else 'GLY',
+                         resid=1, chain='A', element='O' if kind == 'water-only' else 'H', position=np.array([0.1 * idx, 0.0, 0.0]))
+        system.molecules.append(mol)
+        if kind == 'hydrogens-only':
+            kwargs['ignh'] = True
+    path = os.path.join(base, 'nothing.pdb')
+    try:
+        write_pdb(system, path, defer_writing=False)
+        mols = read_pdb(path, **kwargs)
+        os.remove(path)
+        got = [len(m) for m in mols]
+    except Exception as err:   # pylint: disable=broad-except
+        got = 'exception %r' % (err,)
+    acc.case(nontrivial=True, outcome=('nothing', kind, str(got)))
+    if got not in ([], [0]):
+        acc.violation('pdb:nothing-to-read', '%s: reading the written file back gave %r, expected no molecule' % (kind, got), case)
+
+
 def gro_sequence(seq, acc, base):
     """Several GRO files of different layouts (coordinate column width = precision + 1, with / without velocities) written
     and read back one after another in ONE process: every read-back is judged on its own."""
@@ -413,7 +443,10 @@ def work(task):
         base = tempfile.mkdtemp(prefix='verif_c16o_', dir='/dev/shm' if os.path.isdir('/dev/shm') else None)
         try:
             for item in cases:
-                writer_options(item, acc, base)
+                if isinstance(item, str):
+                    nothing_to_read(item, acc, base)
+                else:
+                    writer_options(item, acc, base)
         finally:
             shutil.rmtree(base, ignore_errors=True)
         return acc
@@ -490,7 +523,8 @@ def run(ctx):
         acc += part
     ctx.layer('gro-read-sequences', acc)
     acc = Acc()
-    for part in common.pmap(work, [('writer-options', [item]) for item in itertools.product((True, False), repeat=3)]):
+    for part in common.pmap(work, [('writer-options', [item]) for item in list(itertools.product((True, False), repeat=3)) +
+                                   ['no-molecules', 'water-only', 'hydrogens-only']]):
         acc += part
     ctx.layer('pdb-writer-options', acc)
 
@@ -502,7 +536,9 @@ def replay(case):
     try:
         case = dict(case)
         layer = case.pop('layer')
-        if layer == 'pdb-writer-options':
+        if layer == 'nothing-to-read':
+            nothing_to_read(case['kind'], acc, base)
+        elif layer == 'pdb-writer-options':
             writer_options((case['conect'], case['omit_charges'], case['nan_missing_pos']), acc, base)
         elif layer == 'gro-sequence':
             gro_sequence(tuple(tuple(x) for x in case['sequence']), acc, base)
